@@ -129,6 +129,10 @@ def gen_seq(rng, sid):
             # a csvpath whose validity check makes Python emit a warning (a regex re.compile accepts with a FutureWarning): how it is
             # treated depends on the process-wide warnings filter, which parsing installs
             text = f'${fname}[1*][ @seen = count_lines() regex(#0, /^[[:alnum:]]+$/) ]'
+        elif r < 0.33:
+            # functions that share an implementation class and differ by a constructor argument (median / average), min / max, percent_unique:
+            # anything the function factory remembers between jobs would show
+            text = f'${fname}[1*][ @mid = median(#1) @avg = average(#1) @hi = max(#1) @lo = min(#1) ]'
         elif r < 0.4:
             text = f'${fname}[*][ @n = count_headers() print("$.csvpath.headers") @h = count_headers_in_line() ]'
         else:
@@ -236,7 +240,7 @@ def run(ctx):
     ctx.coverage.update({
         "evaluations": len(kjobs) + jobs_run + sum(len(s) for s in seqs), "distinct_nontrivial": len({json.dumps(s, sort_keys=True) for s in seqs}),
         "rule": "(b) includes sequences (40%) in which the file at a path already read is replaced by other content between jobs; (a) header rows of 0-4 cells from a hostile pool (leading quote, embedded quote, comma, newline, empty, spaces, non-ASCII) through the real FileCacher write + a fresh "
-                "FileCacher read; (b) sequences of 2-6 jobs over 1-2 files (60% with hostile header cells; generated csvpaths, header-inspecting csvpaths, 15% append(), 12% a regex whose compilation warns) created directly / by a "
+                "FileCacher read; (b) sequences of 2-6 jobs over 1-2 files (60% with hostile header cells; generated csvpaths, header-inspecting csvpaths, 15% append(), 12% a regex whose compilation warns, 6% median/average/max/min) created directly / by a "
                 "shared CsvPaths / by a new CsvPaths, run in one subprocess with a cold cache, again in a second subprocess with the cache populated, each job vs its twin alone in a fresh "
                 "subprocess (lines, variables, printouts, errors, verdict, counters, headers); (c) ast footprint of class/module-level mutable state. Non-trivial = distinct sequences.",
         "samples": [{"sequence": [{"csvpath": x["text"], "file": x["fname"], "created": x["how"]} for x in seqs[0]]}],
